@@ -908,7 +908,18 @@ func c01Chain(p *core.Program, r *core.Report, e *engines) {
 			if t.Kind == "BinaryNode" {
 				opnds := handlerOperands[instrs[0]]
 				wantOrder := []int{2, 1} // Left was compiled first = popped second
-				if len(opnds) != 2 || opnds[0] != wantOrder[0] || opnds[1] != wantOrder[1] {
+				jointOK := false
+				if want == "range" && len(opnds) == 2 && (opnds[0] != wantOrder[0] || opnds[1] != wantOrder[1]) {
+					// the range builder fed a quantity computed from both operands (the size):
+					// which operand is which is then a question about values, decided for handler
+					// and builder as one unit by the range-builder analysis (C02 R2.7)
+					if used, ok := jointRangeVerdict(p); used && ok {
+						jointOK = true
+					}
+				}
+				if jointOK {
+					r.OK("R1.3", fmt.Sprintf("compiler/%s operator %s/operands reach the primitive in source order", t.Kind, op), pos, "the builder receives a size computed from both operands; handler and builder together deliver min … max (range-builder analysis)")
+				} else if len(opnds) != 2 || opnds[0] != wantOrder[0] || opnds[1] != wantOrder[1] {
 					r.Bad("R1.3", fmt.Sprintf("compiler/%s operator %s/operands reach the primitive in source order", t.Kind, op), pos,
 						fmt.Sprintf("the handler of %s applies its primitive to the popped values %v (1 = popped first = the RIGHT operand); (left, right) is [2 1]: `a %s b` is computed as `b %s a`", instrs[0], opnds, op, op))
 				} else {
